@@ -187,9 +187,13 @@ func (h *c14harness) onFailure(id byte) {
 	// a failure for a version that was replaced or deleted while the operation
 	// ran is dropped: the newer version is reconciled as an ordinary change
 	k.failing = !h.attemptStale
+	if h.attemptStale {
+		k.failures = 0 // the newer version has not failed yet
+	} else {
+		k.failures++
+	}
 	h.attemptStale = false
 	k.changedSinceFailure = false
-	k.failures++
 	vnd.Cover("C14.failure")
 }
 
@@ -373,6 +377,17 @@ func VerifC14Rounds() {
 				unsettled = true
 			}
 		}
+		// the backoff starts over after the object changes or succeeds: a queued
+		// retry carries the number of consecutive failures of the current version
+		for id, k := range h.keys {
+			if k.failing && !k.changedSinceFailure {
+				item := rt.items[string(rt.objectToKey(&robj{id: id}))]
+				pa(item != nil, "C16.failed-object-has-no-retry")
+				if item != nil {
+					pa(item.numRetries == k.failures, "C16.backoff-not-restarted-after-change")
+				}
+			}
+		}
 		pa(!awaiting || lw != 0, "C16.low-watermark-zero-while-failed-object-awaits-retry")
 		pa(lw == 0 || unsettled, "C16.low-watermark-nonzero-with-everything-reconciled")
 		// WaitUntilReconciled(rev) returns without error only when every change up to rev was attempted
@@ -387,8 +402,9 @@ func VerifC14Rounds() {
 		// attempted: the reported revision must not be at or beyond a pending
 		// object whose latest version was never passed to Update
 		cur, _, _ := progress.wait(cctx, 0)
+		fresh := db.ReadTxn() // (the round's own snapshot predates writes made while an operation was in flight)
 		for id, k := range h.keys {
-			if o, orev, ok := table.Get(txn, robjIndex.Query(id)); ok && k.present && k.attempted != k.version {
+			if o, orev, ok := table.Get(fresh, robjIndex.Query(id)); ok && k.present && k.attempted != k.version {
 				_ = o
 				pa(orev > cur, "C16.progress-ahead-of-unattempted-change")
 			}
